@@ -26,7 +26,7 @@ func init() {
 }
 
 func ruleG7l(c *Ctx) *RuleResult {
-	r := &RuleResult{Floor: 2, FloorWhat: "positive outcomes of hasPart"}
+	r := &RuleResult{Floor: 1, FloorWhat: "positive outcomes of hasPart"}
 	fn := c.Method("", "muxerStream", "hasPart")
 	idF := c.Field("", "muxerSegmentFMP4", "id")
 	partsF := c.Field("", "muxerSegmentFMP4", "parts")
